@@ -634,6 +634,14 @@ func (e *SpecEnv) evalCall(x SCall) SV {
 		m, k := arg(0), arg(1)
 		dom, _, _, _ := e.G.TE.MapHeaps(m.Typ)
 		return SV{Term: fmt.Sprintf("(and (not (= %s nil)) (select (select %s %s) %s))", m.Term, e.Cur.Heap(dom), m.Term, k.Term), Typ: boolT}
+	case "encCount":
+		// number of values accepted by xml Encode so far (ghost)
+		n, _ := encHeaps(e.G)
+		return SV{Term: e.Cur.Heap(n), Typ: intT}
+	case "encAt":
+		// the i-th value accepted by xml Encode (ghost sequence)
+		_, seq := encHeaps(e.G)
+		return SV{Term: fmt.Sprintf("(select %s %s)", e.Cur.Heap(seq), arg(0).Term), Typ: types.NewInterfaceType(nil, nil)}
 	case "seen":
 		// seen(k): key k has been produced by the enclosing range-over-map loop
 		sv, ok := e.Vars["#seen"]
